@@ -80,3 +80,36 @@ def dependent_required_exclude_defaults(job, failure) -> bool:
     if not job.get("opts", {}).get("exclude_defaults"):
         return False
     return _rerun(job, failure, drop_dependent_required=True)
+
+
+def decimal_through_float(job, failure) -> bool:
+    """C05 std: a Decimal that is not exactly a binary float cannot come back"""
+    if job.get("std") != "Decimal":
+        return False
+    import re
+    from decimal import Decimal
+
+    decs = re.findall(r"Decimal\('([^']*)'\)", str(failure.get("witness")))
+    return any(Decimal(float(Decimal(x))) != Decimal(x) for x in decs)
+
+
+def any_position_not_copied(job, failure) -> bool:
+    """C08: with no_copy=False, data met at an Any-typed position (or an undeclared
+    TypedDict key under additional_properties) is returned as is; the sharing disappears
+    when AnyMethod copies"""
+    if not str(failure.get("kind", "")).startswith("shares-container"):
+        return False
+    import copy
+
+    from apischema.deserialization import methods as M
+
+    orig = M.AnyMethod.deserialize
+
+    def copying(self, data):
+        return copy.deepcopy(orig(self, data))
+
+    M.AnyMethod.deserialize = copying
+    try:
+        return _rerun(job, failure)
+    finally:
+        M.AnyMethod.deserialize = orig
